@@ -6,6 +6,7 @@ from ..peval import Const, is_const
 from ..report import RuleResult
 from ..effects import Exceptions, ExcClass
 from ..util import key_of, src, call_name
+from ..pattern import match as match_pat
 from .. import rx
 from . import tokens_lang as TL
 
@@ -247,9 +248,8 @@ def rule_arity(ctx):
     rr.instances += 1
     single = False
     for n in own_nodes(pa):
-        if isinstance(n, ast.If) and isinstance(n.test, ast.Compare) and \
-                'len(builder)' in norm_src(n.test) and any(
-                isinstance(s, ast.Raise) for s in n.body):
+        if isinstance(n, ast.If) and match_pat('len(__b) != 1', n.test) \
+                is not None and any(isinstance(s, ast.Raise) for s in n.body):
             single = True
     if single:
         rr.ok('a formula that does not reduce to one expression raises '
